@@ -1244,6 +1244,10 @@ func (e *Env) evalMethodCall(sel *ESelect, args []Expr) SVal {
 			obj, _, _ := types.LookupFieldOrMethod(x.typ, true, named.Obj().Pkg(), sel.Name)
 			if f, ok := obj.(*types.Func); ok {
 				sig = f.Type().(*types.Signature)
+				// the contract is attached to the interface that declares the method (embedded interfaces)
+				if rn, ok := sig.Recv().Type().(*types.Named); ok && rn.Obj().Pkg() != nil {
+					key = "iface:" + rn.Obj().Pkg().Path() + "." + rn.Obj().Name() + "." + sel.Name
+				}
 			}
 		}
 	}
